@@ -4,7 +4,8 @@ use super::*;
 
 #[kani::proof]
 fn self_false() {
-    let r: u8 = kani::any();
+    let mut dr = crate::verif_shim::Draw::new();
+    let r: u8 = dr.u8();
     // false claim: every mask is injectable by the empty mask
     assert!(PermissionMask::from_bits(r).is_injectable_by(PermissionMask::from_bits(0)), "P:selftest.false_claim");
     kani::cover!(r == 0, "W:selftest.reachable");
@@ -12,7 +13,8 @@ fn self_false() {
 
 #[kani::proof]
 fn self_vacuous() {
-    let r: u8 = kani::any();
+    let mut dr = crate::verif_shim::Draw::new();
+    let r: u8 = dr.u8();
     kani::assume(r > 200 && r < 100);
     assert!(PermissionMask::from_bits(r).is_injectable_by(PermissionMask::from_bits(0)), "P:selftest.vacuous_claim");
     kani::cover!(true, "W:selftest.unreachable_witness");
